@@ -7,7 +7,7 @@ SHARD = 150
 
 def driver_args(tier, seed, phase):
     if phase == "search":
-        return ["-n", "3000" if tier == "quick" else "20000"]
+        return ["-n", "800" if tier == "quick" else "20000"]
     return []
 
 
@@ -26,3 +26,10 @@ TRUSTED_BASE = [
     "pkg/upstream/transport/utils.go by differential execution (Judge.C16) and by the regenerated constants "
     "min_frame_len / max_msg_size* in Gen/Constants.v",
 ]
+LEVEL_TEXT = ("Theorems in coq/Properties/C16.v, for every message, every stream and every way of cutting it into reads: "
+              "a framed message of 13..65535 bytes is read back byte-for-byte, the reader returns nothing but the announced "
+              "bytes, oversize is refused, truncated/short/small frames are errors, whole frames in any order decode to the same "
+              "messages. The model (Model/Framing.v) is run inside Coq on every case the Go driver observed on the real "
+              "readers/writers and the TCP server (Judge.C16.agree), and the size constants are regenerated from the source.")
+LEVEL_NOTE = ("Trusted: Coq kernel + vm_compute; hand-written model tied to the code by the differential run and Gen/Constants.v; "
+              "atomicity of one net.Conn.Write; io.ReadFull as modelled; miekg Pack as reference packing. No axioms.")
